@@ -67,6 +67,8 @@ pub fn run_stream(
     } else {
         [usize::MAX, usize::MAX]
     };
+    // the clone step is a plain clone for half of them and a clone_from into a used instance for the rest
+    let clone_kind: usize = if (len / 4) % 2 == 0 { 0 } else { 2 };
     let with_prefix = |upto: usize| -> serde_json::Value {
         let mut ops: Vec<serde_json::Value> = prefix.iter().map(|x| x.to_json()).collect();
         if !prefix.is_empty() {
@@ -74,7 +76,7 @@ pub fn run_stream(
         }
         for (k, x) in inputs[..=upto].iter().enumerate() {
             if k == perturb_at[0] {
-                ops.push(json!({"op": "clone_swap"}));
+                ops.push(json!({"op": if clone_kind == 0 { "clone_swap" } else { "clone_from_swap" }}));
             }
             if k == perturb_at[1] {
                 ops.push(json!({"op": "serde_swap"}));
@@ -94,7 +96,7 @@ pub fn run_stream(
     for (i, x) in inputs.iter().enumerate() {
         st.steps += 1;
         if i == perturb_at[0] {
-            inst.perturb(0);
+            inst.perturb(clone_kind);
         }
         if i % 64 == 5 && len % 4 == 1 {
             // a quarter of the streams are also *observed* every 64 inputs through the read-only API
